@@ -425,7 +425,9 @@ fn synthetic_minimizer_shape_of(rng: &mut Rng, force: Option<usize>) -> ScannerC
         }
         // a{n} chains
         1 => {
-            let n = rng.range(2, 12) as u32;
+            // short chains, and now and then long ones: the refinement needs one round per link
+            // (a cap on the number of rounds shows at 65, 130, 260 links)
+            let n = if rng.chance(1, 6) { *rng.pick(&[63usize, 64, 65, 66, 70, 100, 129, 130, 260]) } else { rng.range(2, 12) } as u32;
             ScannerCfg::single(vec![
                 RefPattern { re: Re::Rep(Box::new(lit('a')), n, RepMax::Exactly), tt: 0, la: None },
                 RefPattern { re: Re::Rep(Box::new(ab()), 1, RepMax::Bounded(n)), tt: 1, la: None },
@@ -548,7 +550,7 @@ pub fn run_lang(which: Which, tier: Tier) -> i32 {
     // place where the refinement is asked the subtle questions)
     let nfin = ctx.scale(12_000, 600_000);
     res.merge(run_cases(&ctx, 5, nfin, |rng, _i, st| {
-        let kind = *rng.pick(&[6usize, 6, 9, 11, 11]);
+        let kind = *rng.pick(&[6usize, 6, 9, 11, 11, 1]);
         let cfg = synthetic_minimizer_shape_of(rng, Some(kind));
         st.count("finite_language_programs");
         st.nontrivial(hash_of(&cfg));
